@@ -19,13 +19,19 @@ inductive PVal
 
 def natStr (n : Nat) : Str := (Nat.repr n).toList
 
+def pfxParam : Str := "param".toList
+def sfxPy : Str := ")s".toList
+
+/-- `named_placeholder_gen`: `param<n+1>` -/
+def paramName (n : Nat) : Str := pfxParam ++ natStr (n + 1)
+
 /-- placeholder text for the value collected when `n` values are already in the collector -/
 def placeholder : ParamStyle → Nat → Str
   | .qmark, _ => ['?']
   | .numeric, n => ':' :: natStr (n + 1)
-  | .format, _ => "%s".toList
-  | .named, n => ":param".toList ++ natStr (n + 1)
-  | .pyformat, n => "%(param".toList ++ natStr (n + 1) ++ ")s".toList
+  | .format, _ => ['%', 's']
+  | .named, n => ':' :: paramName n
+  | .pyformat, n => '%' :: '(' :: (paramName n ++ sfxPy)
 
 /-- `get_param_key`: the dictionary key derived from the placeholder text (dict styles) -/
 def paramKey : ParamStyle → Str → Str
